@@ -168,6 +168,15 @@ def make_groups(quick):
         n += 1
         rules = [H.Rule(scs=[name], action="|", **P[i][1]), H.Rule(scs=[name], **P[j][1]), H.Rule(scs=[name], **P[k][1])]
         gs.append(H.Group([(name, True)], rules, name, b"ab", 0, label="%s | %s ; %s" % (P[i][0], P[j][0], P[k][0])))
+    # a '$' / trailing-context rule with a '|' action after an ordinary rule: the parser reduces 're$' without look-ahead, i.e. before
+    # the scanner has seen the '|' (and counted its line) - round-5 seed C17-r5m3
+    for p_ in (0, 3, 15, 16, 17):
+        for i in (15, 16, 17):
+            for k in (0, 1, 2):
+                name = "W%d" % n
+                n += 1
+                rules = [H.Rule(scs=[name], **P[p_][1]), H.Rule(scs=[name], action="|", **P[i][1]), H.Rule(scs=[name], **P[k][1])]
+                gs.append(H.Group([(name, True)], rules, name, b"ab", 0, label="%s ; %s | %s" % (P[p_][0], P[i][0], P[k][0])))
     return gs
 
 
